@@ -326,6 +326,7 @@ def main():
     ddepth = one(r"let\s+mut\s+depth\s*=\s*([0-9_]+)\s*;", us, "default depth")
     dmin = one(r"depth\s*=\s*d\.min\(([0-9_]+)\)\s*;", us, "depth cap")
     dinf = one(r"\"infinite\"\s*=>\s*\{\s*depth\s*=\s*([0-9_]+)\s*;", us, "infinite depth")
+    margin = one(r"\(base_time\s*\+\s*increment\)\s*\.min\(time_left\.saturating_sub\(([0-9_]+)\)\)", us, "budget margin")
     skip = one(r"time_limit\s*=\s*self\.calculate_move_time\(parts,\s*i\)\s*;\s*i\s*\+=\s*([0-9_]+)\s*;", us, "clock skip")
     t = HEADER.format(src="src/search.rs, src/killer_moves.rs, src/uci.rs")
     t += f"def NEGATIVE_INFINITY : Int := {lean_int(NI)}\n"
@@ -344,6 +345,7 @@ def main():
     t += f"def GO_DEFAULT_DEPTH : Nat := {int(ddepth.replace('_',''))}\n"
     t += f"def GO_DEPTH_CAP : Nat := {int(dmin.replace('_',''))}\n"
     t += f"def GO_INFINITE_DEPTH : Nat := {int(dinf.replace('_',''))}\n"
+    t += f"def GO_MARGIN : Nat := {int(margin.replace('_',''))}\n"
     t += f"def GO_CLOCK_SKIP : Nat := {int(skip.replace('_',''))}\n"
     t += "\nend Flounder.Gen\n"
     if write_if_changed(os.path.join(OUT, "Search.lean"), t):
